@@ -216,3 +216,12 @@ Theorem C09_prims_source_example :
   option_map (fun c => (nodes c, lines c, map (fun n => n_outs (nst c n)) (nodes c))) (run_hist example_history) /\
   (exists c, run_source empty example_history = Some c /\ List.length (nodes c) + List.length (lines c) > 0).
 Proof. exact source_history_example. Qed.
+
+(* eliminate_1to1_forks AS TRANSLATED FROM THE SOURCE (Gen/CircuitElimSrc.v, translate/gen_circuit_elim.py; equal to the hand model
+   on every state: C10_eliminate_source_is_model) does not raise inside well-formed use and keeps the graph invariant; its result is,
+   field by field, the state of the hand model *)
+From KV Require Import Model.CircuitPrimsSrcLib Gen.CircuitElimSrc Proofs.CircuitElimSrcExample.
+Theorem C09_eliminate_source : forall c, CInv c -> elim_ok_b c = true ->
+  exists c', Circuit_eliminate_1to1_forks_src c = Some c' /\ CInv c' /\ (IoLive c -> IoLive c') /\
+             exists m, eliminate_1to1 c = Some m /\ ceq c' m.
+Proof. exact eliminate_source_inv. Qed.
